@@ -1,6 +1,7 @@
 package main
 
 import (
+	"bytes"
 	"flag"
 	"fmt"
 	"os"
@@ -66,11 +67,6 @@ func run() error {
 	for _, w := range warnings {
 		fmt.Fprintf(os.Stderr, "warning: %v\n", w)
 	}
-	out, err := os.Create(*outputFile)
-	if err != nil {
-		return fmt.Errorf("failed to open output file: %w", err)
-	}
-	defer out.Close()
 	importMode := bebop.ImportGenerationModeSeparate
 	if *combinedImports {
 		importMode = bebop.ImportGenerationModeCombined
@@ -84,8 +80,41 @@ func run() error {
 		PrivateDefinitions:        *privateDefinitions,
 		AlwaysUsePointerReceivers: *pointerReceivers,
 	}
+	// generate into memory and replace the output file only once everything
+	// succeeded, so a failed run never damages a previously generated file.
+	out := new(bytes.Buffer)
 	if err := bopf.Generate(out, settings); err != nil {
 		return fmt.Errorf("failed to generate file: %w", err)
 	}
+	if err := replaceFile(*outputFile, out.Bytes()); err != nil {
+		return fmt.Errorf("failed to write output file: %w", err)
+	}
 	return nil
+}
+
+// replaceFile writes data to a temporary file next to path and renames it over
+// path, so path holds either its previous contents or all of data.
+func replaceFile(path string, data []byte) error {
+	mode := os.FileMode(0644)
+	if fi, err := os.Stat(path); err == nil {
+		mode = fi.Mode().Perm()
+	}
+	tmp, err := os.CreateTemp(filepath.Dir(path), filepath.Base(path)+".tmp*")
+	if err != nil {
+		return err
+	}
+	_, err = tmp.Write(data)
+	if err == nil {
+		err = tmp.Chmod(mode)
+	}
+	if cerr := tmp.Close(); err == nil {
+		err = cerr
+	}
+	if err == nil {
+		err = os.Rename(tmp.Name(), path)
+	}
+	if err != nil {
+		os.Remove(tmp.Name())
+	}
+	return err
 }
